@@ -10,13 +10,16 @@ import (
 	"log/slog"
 	"net/http"
 	"net/http/httptest"
+	"net/http/httptrace"
 	"os"
+	"os/exec"
 	"path/filepath"
 	"regexp"
 	"runtime"
 	"strconv"
 	"strings"
 	"sync"
+	"sync/atomic"
 	"time"
 
 	"github.com/whoisnian/glb/httpd"
@@ -41,7 +44,26 @@ import (
 //
 // Violations judged here: "VIOL duplicate-id ...", "VIOL orphan-record ...", "VIOL undecodable-record ...",
 // "VIOL panic-escaped-server-log ...".
-func main() { hk.Main("C15", run) }
+func main() {
+	// A data race found by the race detector must not hide the cases: the detector's exit code (default 66)
+	// makes the runner stop before judging them. Re-run ourselves with GORACE=exitcode=3 ("harness reported a
+	// problem, cases are valid"), so that a race in the code under test is reported together with the
+	// failing inputs it produced (duplicate ids, records that do not pair up).
+	if os.Getenv("GORACE") == "" && os.Getenv("VERIF_C15_CHILD") == "" {
+		cmd := exec.Command(os.Args[0], os.Args[1:]...)
+		cmd.Env = append(os.Environ(), "GORACE=exitcode=3", "VERIF_C15_CHILD=1")
+		cmd.Stdout, cmd.Stderr = os.Stdout, os.Stderr
+		if err := cmd.Run(); err != nil {
+			if ee, ok := err.(*exec.ExitError); ok {
+				os.Exit(ee.ExitCode())
+			}
+			fmt.Fprintln(os.Stderr, "re-exec failed:", err)
+			os.Exit(3)
+		}
+		return
+	}
+	hk.Main("C15", run)
+}
 
 // ---------------------------------------------------------------- panic values
 
@@ -63,8 +85,21 @@ const (
 	// non-nil values whose marshalling methods panic (contained since /repo 8565de4)
 	pvTextMarshalerPanics = 14
 	pvJsonMarshalerPanics = 15
-	numPanicKinds         = 16
+	pvFormatterPanics     = 16 // fmt.Formatter whose Format panics
+	pvLogValuerPanics     = 17 // slog.LogValuer whose LogValue panics
+	pvNilMapWrite         = 18 // genuine runtime.Error values
+	pvIndexRange          = 19
+	pvNilDeref            = 20
+	pvDivZero             = 21
+	pvChan                = 22
+	pvFunc                = 23
+	pvBigString           = 24 // 1 MiB string
+	pvBadUtf8             = 25 // invalid UTF-8 text
+	numPanicKinds         = 26
 )
+
+var zero = 0
+var emptyInts []int
 
 var panicKinds = numPanicKinds
 
@@ -125,6 +160,28 @@ func doPanic(kind, n int) {
 		panic(textMarshalerPanics{n})
 	case pvJsonMarshalerPanics:
 		panic(jsonMarshalerPanics{n})
+	case pvFormatterPanics:
+		panic(formatterPanics{n})
+	case pvLogValuerPanics:
+		panic(logValuerPanics{n})
+	case pvNilMapWrite:
+		var m map[string]int
+		m["k"] = n
+	case pvIndexRange:
+		_ = emptyInts[5+zero]
+	case pvNilDeref:
+		var p *plainStruct
+		_ = p.A
+	case pvDivZero:
+		_ = n / zero
+	case pvChan:
+		panic(make(chan int))
+	case pvFunc:
+		panic(func() {})
+	case pvBigString:
+		panic(fmt.Sprintf("big-%d-", n) + strings.Repeat("y", 1<<20))
+	case pvBadUtf8:
+		panic(fmt.Sprintf("bad-%d-\xff\xfe", n))
 	}
 	panic("unknown panic kind")
 }
@@ -179,6 +236,76 @@ func expectedPanicText(kind, n, hkind int) string {
 	return "\x00no such value"
 }
 
+// salient: what any reasonable rendering of the value must contain (all of them), and the least length.
+func salient(kind, n int) ([]string, int) {
+	num := strconv.Itoa(n)
+	switch kind {
+	case pvString:
+		return []string{"boom-" + num}, 1
+	case pvError:
+		return []string{"err-" + num}, 1
+	case pvInt:
+		return []string{strconv.Itoa(1000000 + n)}, 1
+	case pvStruct:
+		return []string{num, "x y"}, 1
+	case pvSlice, pvStrPanics, pvMap:
+		return []string{num}, 1
+	case pvWrapAbort:
+		return []string{"wrap-" + num, "abort Handler"}, 1
+	case pvJoinAbort:
+		return []string{"abort Handler"}, 1
+	case pvUnwrapNil:
+		return []string{"unwrap-nil"}, 1
+	case pvNilMapWrite:
+		return []string{"nil map"}, 1
+	case pvIndexRange:
+		return []string{"index out of range"}, 1
+	case pvNilDeref:
+		return []string{"nil pointer"}, 1
+	case pvDivZero:
+		return []string{"divide by zero"}, 1
+	case pvBigString:
+		return []string{"big-" + num + "-", "yyyyyyyy"}, 1 << 20
+	case pvBadUtf8:
+		return []string{"bad-" + num + "-"}, 1
+	}
+	return nil, 1 // nil, typed nils, values whose methods panic, chan, func: any non-empty text
+}
+
+// judgePanicText: kind = the expected rendering; 1000+kind = not the expected rendering, but non-empty and
+// containing the salient payload (reported as DRIFT by the driver); 0 = empty or payload missing.
+func judgePanicText(kind, n, hkind int, text string) int {
+	if kind >= 1 && kind <= pvMap && text == expectedPanicText(kind, n, hkind) {
+		return kind
+	}
+	subs, minLen := salient(kind, n)
+	if len(strings.TrimSpace(text)) == 0 || len(text) < minLen {
+		return 0
+	}
+	for _, s := range subs {
+		if !strings.Contains(text, s) {
+			return 0
+		}
+	}
+	if kind >= 1 && kind <= pvMap {
+		return 1000 + kind
+	}
+	return kind
+}
+
+// afterStack: the part of a Nano ERROR record that follows the stack trace (msg), i.e. the rendered value.
+func afterStack(s string) string {
+	i := strings.LastIndex(s, "\n\t")
+	if i < 0 {
+		return s
+	}
+	j := strings.IndexByte(s[i+2:], '\n')
+	if j < 0 {
+		return ""
+	}
+	return strings.TrimPrefix(s[i+2+j+1:], " ")
+}
+
 // ---------------------------------------------------------------- scripts
 
 type action struct{ tag, a, b int }
@@ -188,9 +315,54 @@ const (
 	aHdr
 	aBody
 	aPanic
+	aFlush // a: 0 Flush(), 1 FlushError()
+	// Store helpers; the case line carries their expansion into WriteHeader + helper body
+	aError404    // store.Error404("<cB>")
+	aError500    // store.Error500("<cB>")
+	aRedirect    // store.Redirect("/to", 302)
+	aRespond200  // store.Respond200("<cB>"), B = 0: empty content
+	aRespondJson // store.RespondJson(map[string]int{"c": B})
 )
 
-var methods = []string{"GET", "POST", "PUT", "DELETE", "PATCH"}
+const viaHelper = 3
+const redirectChunk = 777777
+const redirectBody = "<a href=\"/to\">Found</a>.\n\n"
+
+var methods = []string{"GET", "POST", "PUT", "DELETE", "PATCH", "HEAD", "OPTIONS"}
+
+const methodHEAD = 5
+
+// expand: the model actions of one harness action. http.Redirect writes its small HTML body only for GET
+// and only when the handler has not set a Content-Type yet (http.Error, RespondJson and Redirect set one).
+func expand(a action, method int, ctSet *bool) []action {
+	switch a.tag {
+	case aError404:
+		*ctSet = true
+		return []action{{aHdr, 404, 0}, {aBody, viaHelper, a.b}}
+	case aError500:
+		*ctSet = true
+		return []action{{aHdr, 500, 0}, {aBody, viaHelper, a.b}}
+	case aRedirect:
+		had := *ctSet
+		if methods[method] == "GET" || methods[method] == "HEAD" {
+			*ctSet = true
+		}
+		if methods[method] == "GET" && !had {
+			return []action{{aHdr, 302, 0}, {aBody, viaHelper, redirectChunk}}
+		}
+		return []action{{aHdr, 302, 0}}
+	case aRespond200:
+		if a.b == 0 {
+			return []action{{aHdr, 200, 0}}
+		}
+		return []action{{aHdr, 200, 0}, {aBody, viaHelper, a.b}}
+	case aRespondJson:
+		*ctSet = true
+		return []action{{aBody, viaHelper, a.b}}
+	}
+	return []action{a}
+}
+
 var directAddrs = []struct{ addr, ip string }{
 	{"10.1.2.3:4567", "10.1.2.3"}, {"[2001:db8::1]:80", "2001:db8::1"}, {"192.0.2.77:1", "192.0.2.77"},
 }
@@ -210,6 +382,7 @@ func chunkContent(id int) string {
 }
 
 var chunkRe = regexp.MustCompile(`^<c(\d+)>x*`)
+var jsonChunkRe = regexp.MustCompile(`^\{"c":(\d+)\}\n`)
 
 func decodeBody(b string) []int {
 	var out []int
@@ -219,11 +392,23 @@ func decodeBody(b string) []int {
 			b = b[len(errText):]
 			continue
 		}
+		if strings.HasPrefix(b, redirectBody) {
+			out = append(out, redirectChunk)
+			b = b[len(redirectBody):]
+			continue
+		}
+		if m := jsonChunkRe.FindStringSubmatch(b); m != nil {
+			id, _ := strconv.Atoi(m[1])
+			out = append(out, id)
+			b = b[len(m[0]):]
+			continue
+		}
 		if m := chunkRe.FindStringSubmatch(b); m != nil {
 			id, _ := strconv.Atoi(m[1])
 			if m[0] == chunkContent(id) {
 				out = append(out, id)
 				b = b[len(m[0]):]
+				b = strings.TrimPrefix(b, "\n") // http.Error ends its text with a newline
 				continue
 			}
 		}
@@ -246,12 +431,15 @@ type reqSpec struct {
 	mu   sync.Mutex
 	tids []string
 	// observed
-	esc   bool
-	wire  int
-	body  []int
-	cerr  string
-	recs  []decRec
-	batch int
+	esc     bool
+	wire    int
+	body    []int
+	cerr    string
+	recs    []decRec
+	batch   int
+	cfail   bool     // server mode: the client saw an error instead of a response
+	locals  []string // server mode: local addresses of the connections used (= remote address in the server's log)
+	retried bool
 }
 
 type decRec struct {
@@ -296,6 +484,7 @@ type site struct {
 	mu         sync.Mutex
 	specs      map[int]*reqSpec
 	tidSeen    map[string]int
+	active     atomic.Int64
 }
 
 func newSite(hkind, thr int) *site {
@@ -314,10 +503,16 @@ func newSite(hkind, thr int) *site {
 	s.mux.HandleRelay(logger.New(h).Relay)
 	s.mux.Handle("/m/:n", httpd.MethodAll, s.scripted)
 	s.mux.HandleNoRoute(s.scripted)
-	s.srv = httptest.NewUnstartedServer(s.mux)
+	// the client of a HEAD request (or of a flushed response) can be done before Relay's deferred REQ_END has
+	// been written: count the calls that are still inside ServeHTTP
+	s.srv = httptest.NewUnstartedServer(http.HandlerFunc(func(w http.ResponseWriter, r *http.Request) {
+		s.active.Add(1)
+		defer s.active.Add(-1)
+		s.mux.ServeHTTP(w, r)
+	}))
 	s.srv.Config.ErrorLog = log.New(s.srvLog, "", 0)
 	s.srv.Start()
-	s.client = &http.Client{Timeout: 10 * time.Second,
+	s.client = &http.Client{Timeout: 30 * time.Second,
 		Transport:     &http.Transport{MaxIdleConnsPerHost: 64, DisableCompression: true},
 		CheckRedirect: func(*http.Request, []*http.Request) error { return http.ErrUseLastResponse }}
 	return s
@@ -362,6 +557,26 @@ func (s *site) scripted(store *httpd.Store) {
 			}
 		case aPanic:
 			doPanic(a.a, sp.no)
+		case aFlush:
+			if a.a == 0 {
+				store.W.Flush()
+			} else {
+				store.W.FlushError()
+			}
+		case aError404:
+			store.Error404(chunkContent(a.b))
+		case aError500:
+			store.Error500(chunkContent(a.b))
+		case aRedirect:
+			store.Redirect("/to", http.StatusFound)
+		case aRespond200:
+			if a.b == 0 {
+				store.Respond200(nil)
+			} else {
+				store.Respond200([]byte(chunkContent(a.b)))
+			}
+		case aRespondJson:
+			store.RespondJson(map[string]int{"c": a.b})
 		}
 	}
 }
@@ -375,9 +590,16 @@ func (s *site) do(sp *reqSpec) {
 			return
 		}
 		req.Header.Set("X-Verif-Req", strconv.Itoa(sp.no))
+		trace := &httptrace.ClientTrace{GotConn: func(ci httptrace.GotConnInfo) {
+			sp.mu.Lock()
+			sp.locals = append(sp.locals, ci.Conn.LocalAddr().String())
+			sp.mu.Unlock()
+		}}
+		req = req.WithContext(httptrace.WithClientTrace(req.Context(), trace))
 		resp, err := s.client.Do(req)
 		if err != nil {
-			sp.esc, sp.cerr = true, err.Error()
+			// escaped panic or harness trouble (timeout, refused ...): decided in batch() from the server's log
+			sp.cfail, sp.cerr = true, err.Error()
 			return
 		}
 		b, rerr := io.ReadAll(resp.Body)
@@ -385,7 +607,7 @@ func (s *site) do(sp *reqSpec) {
 		sp.wire = resp.StatusCode
 		sp.body = decodeBody(string(b))
 		if rerr != nil {
-			sp.esc, sp.cerr = true, rerr.Error()
+			sp.cfail, sp.cerr = true, rerr.Error()
 		}
 		return
 	}
@@ -565,11 +787,13 @@ func slogLevel(thr int) slog.Level { return slog.Level(thr) }
 // ---------------------------------------------------------------- batches
 
 type runner struct {
-	e      *hk.Env
-	nextNo int
-	stats  map[string]int
-	viol   int
-	dist   map[string]bool
+	rng         *hk.Rng
+	harnessErrs []string
+	e           *hk.Env
+	nextNo      int
+	stats       map[string]int
+	viol        int
+	dist        map[string]bool
 }
 
 func (rn *runner) violation(f ...string) {
@@ -613,6 +837,57 @@ func (rn *runner) batch(s *site, specs []*reqSpec) {
 		}(sp)
 	}
 	wg.Wait()
+	for deadline := time.Now().Add(20 * time.Second); s.active.Load() > 0 && time.Now().Before(deadline); {
+		time.Sleep(50 * time.Microsecond)
+	}
+	// server mode: an escaped panic = the server logged "http: panic serving <remote addr>" for a connection
+	// this request used; a client error without such a line is the harness's problem (retried once).
+	var panicLines, unmatched [][]byte
+	for _, l := range s.srvLog.take() {
+		if bytes.Contains(l, []byte("panic serving")) {
+			rn.stats["server_log_panic_serving"]++
+			panicLines = append(panicLines, l)
+		} else if bytes.Contains(l, []byte("superfluous")) {
+			rn.stats["server_log_superfluous_WriteHeader"]++
+		} else {
+			rn.stats["server_log_other"]++
+		}
+	}
+	used := make([]bool, len(panicLines))
+	var again []*reqSpec
+	for _, sp := range specs {
+		if sp.mode != 1 {
+			continue
+		}
+		sp.mu.Lock()
+		locals := append([]string(nil), sp.locals...)
+		sp.mu.Unlock()
+		for i, l := range panicLines {
+			for _, la := range locals {
+				if bytes.Contains(l, []byte("panic serving "+la+":")) {
+					used[i] = true
+					sp.esc = true
+					sp.cerr = "server-log:-" + string(firstLine(l))
+				}
+			}
+		}
+		if sp.cfail && !sp.esc {
+			rn.stats["client_errors_without_server_panic"]++
+			if !sp.retried {
+				again = append(again, sp)
+			} else {
+				rn.harnessErrs = append(rn.harnessErrs, fmt.Sprintf("req %d: %s", sp.no, sp.cerr))
+			}
+		}
+	}
+	for i, l := range panicLines {
+		if !used[i] {
+			unmatched = append(unmatched, l)
+		}
+	}
+	for _, l := range unmatched {
+		rn.violation("panic-escaped-server-log", strconv.Itoa(s.hkind), hk.Hx(firstLine(l)))
+	}
 	raw := s.out.take()
 	// ids
 	tidOwner := map[string]int{}
@@ -622,7 +897,7 @@ func (rn *runner) batch(s *site, specs []*reqSpec) {
 		sp.mu.Lock()
 		tids := append([]string(nil), sp.tids...)
 		sp.mu.Unlock()
-		if len(tids) != 1 && !sp.esc {
+		if len(tids) != 1 && !sp.esc && !sp.cfail {
 			rn.violation("handler-ran-"+strconv.Itoa(len(tids))+"-times", "req", strconv.Itoa(sp.no))
 		}
 		for _, t := range tids {
@@ -670,36 +945,20 @@ func (rn *runner) batch(s *site, specs []*reqSpec) {
 			case d.level == "ERROR" && d.hasPv && d.tag == "":
 				dr.tag = 2
 				if k, has := panicKindOf(sp.script); has {
-					exp := expectedPanicText(k, sp.no, s.hkind)
-					if k == pvTextMarshalerPanics || k == pvJsonMarshalerPanics {
-						// rendering left open: the plain value, or any text naming the inner panic
-						if strings.HasSuffix(d.pvText, fmt.Sprintf("{%d}", sp.no)) || strings.Contains(d.pvText, "marshal-") {
-							dr.pv = k
-						}
-					} else if s.hkind == 0 {
-						if strings.HasSuffix(d.pvText, " "+exp) {
-							dr.pv = k
-						}
-					} else if d.pvText == exp {
-						dr.pv = k
+					text := d.pvText
+					if s.hkind == 0 {
+						text = afterStack(text)
 					}
+					dr.pv = judgePanicText(k, sp.no, s.hkind, text)
 				}
 			}
 			sp.recs = append(sp.recs, dr)
 		}
 	}
-	// server log: escaped panics show up as "http: panic serving"
-	for _, l := range s.srvLog.take() {
-		if bytes.Contains(l, []byte("panic serving")) {
-			rn.stats["server_log_panic_serving"]++
-			rn.violation("panic-escaped-server-log", strconv.Itoa(s.hkind), hk.Hx(firstLine(l)))
-		} else if bytes.Contains(l, []byte("superfluous")) {
-			rn.stats["server_log_superfluous_WriteHeader"]++
-		} else {
-			rn.stats["server_log_other"]++
-		}
-	}
 	for _, sp := range specs {
+		if sp.cfail && !sp.esc {
+			continue // not an observation of the code under test
+		}
 		rn.emit(s, sp, len(specs))
 	}
 	s.mu.Lock()
@@ -707,6 +966,15 @@ func (rn *runner) batch(s *site, specs []*reqSpec) {
 		delete(s.specs, sp.no)
 	}
 	s.mu.Unlock()
+	if len(again) > 0 {
+		var specs2 []*reqSpec
+		for _, sp := range again {
+			sp2 := rn.newSpec(rn.rng, sp.mode, sp.script)
+			sp2.retried = true
+			specs2 = append(specs2, sp2)
+		}
+		rn.batch(s, specs2)
+	}
 }
 
 func firstLine(b []byte) []byte {
@@ -718,11 +986,21 @@ func firstLine(b []byte) []byte {
 
 func (rn *runner) emit(s *site, sp *reqSpec, inflight int) {
 	f := []string{"E", strconv.Itoa(sp.mode), strconv.Itoa(s.hkind), strconv.Itoa(s.thr), strconv.Itoa(sp.route),
-		strconv.Itoa(sp.method), strconv.Itoa(sp.no), strconv.Itoa(len(sp.script))}
+		strconv.Itoa(sp.method), strconv.Itoa(sp.no)}
+	var model []action
+	ctSet := false
 	for _, a := range sp.script {
+		model = append(model, expand(a, sp.method, &ctSet)...)
+	}
+	f = append(f, strconv.Itoa(len(model)))
+	for _, a := range model {
 		f = append(f, strconv.Itoa(a.tag), strconv.Itoa(a.a), strconv.Itoa(a.b))
 	}
-	f = append(f, b2s(sp.esc), strconv.Itoa(sp.wire), strconv.Itoa(len(sp.body)))
+	bodySeen := sp.method != methodHEAD
+	if !bodySeen {
+		sp.body = nil
+	}
+	f = append(f, b2s(sp.esc), strconv.Itoa(sp.wire), b2s(bodySeen), strconv.Itoa(len(sp.body)))
 	for _, c := range sp.body {
 		f = append(f, strconv.Itoa(c))
 	}
@@ -731,8 +1009,8 @@ func (rn *runner) emit(s *site, sp *reqSpec, inflight int) {
 		f = append(f, strconv.Itoa(r.tag), strconv.Itoa(r.code), strconv.Itoa(r.ipOK), strconv.Itoa(r.method),
 			strconv.Itoa(r.uOwner), strconv.Itoa(r.idOwner), strconv.Itoa(r.pv))
 	}
-	if sp.esc && sp.mode == 0 {
-		// judged here as well: the oracle is the recover() around ServeHTTP
+	if sp.esc {
+		// judged here as well: the oracle is the recover() around ServeHTTP / the server's "panic serving" log
 		rn.violation(append([]string{"panic-escaped", sp.cerr2()}, f...)...)
 	}
 	rn.e.Case(f...)
@@ -742,6 +1020,15 @@ func (rn *runner) emit(s *site, sp *reqSpec, inflight int) {
 	rn.stats[fmt.Sprintf("threshold_%d", s.thr)]++
 	rn.stats[fmt.Sprintf("route_matched_%d", sp.route)]++
 	rn.stats[fmt.Sprintf("inflight_le_%d", ceilPow2(inflight))]++
+	rn.stats["method_"+methods[sp.method]]++
+	for _, a := range sp.script {
+		switch {
+		case a.tag == aFlush:
+			rn.stats["actions_flush"]++
+		case a.tag >= aError404:
+			rn.stats["actions_store_helpers"]++
+		}
+	}
 	if k, has := panicKindOf(sp.script); has {
 		rn.stats[fmt.Sprintf("panic_kind_%02d", k)]++
 		if sp.wire == 500 && len(sp.body) == 1 && sp.body[0] == errChunk {
@@ -753,7 +1040,7 @@ func (rn *runner) emit(s *site, sp *reqSpec, inflight int) {
 		rn.stats["no_panic"]++
 	}
 	// distinct = script + mode + hkind + thr + route (request number left out)
-	key := strings.Join(f[1:6], " ") + " | " + strings.Join(f[7:8+3*len(sp.script)], " ")
+	key := strings.Join(f[1:6], " ") + " | " + strings.Join(f[7:8+3*len(model)], " ")
 	rn.dist[key] = true
 	if rn.stats["cases"]%1499 == 7 {
 		rn.e.Sample("samples", strings.Join(f, " "), 6)
@@ -806,7 +1093,7 @@ func sanitize(sc []action) []action {
 	var out []action
 	nobody := false
 	for _, a := range sc {
-		if a.tag == aBody && nobody {
+		if (a.tag == aBody || a.tag >= aError404) && nobody {
 			continue
 		}
 		if a.tag == aHdr && (a.a == 204 || a.a == 304) {
@@ -838,6 +1125,7 @@ func run(e *hk.Env) error {
 	rn := &runner{e: e, stats: map[string]int{}, dist: map[string]bool{}}
 	e.Stats["panic_value_kinds_in_sweep"] = panicKinds - 1
 	r := e.Rng.Fork()
+	rn.rng = r
 
 	thresholds := []int{0, 4, 8, 12, 16}
 	sites := map[[2]int]*site{}
@@ -854,26 +1142,39 @@ func run(e *hk.Env) error {
 
 	// the script alphabet
 	nonPanic := []action{{aNop, 0, 0}, {aHdr, 200, 0}, {aHdr, 404, 0}, {aHdr, 500, 0}, {aHdr, 599, 0},
-		{aBody, 0, 1}, {aBody, 1, 2}, {aBody, 2, 3}}
+		{aBody, 0, 1}, {aBody, 1, 2}, {aBody, 2, 3},
+		{aFlush, 0, 0}, {aFlush, 1, 0},
+		{aError404, 0, 4}, {aError500, 0, 5}, {aRedirect, 0, 0}, {aRespond200, 0, 7}, {aRespondJson, 0, 8}}
+	// panic values tried behind every prefix; all kinds are tried behind prefixes of at most one action
+	corePanics := []int{pvString, pvTypedNil, pvErrPanics, pvWrapAbort, pvUnwrapNil, pvJsonMarshalerPanics, pvNilDeref}
+	maxLen := 2
+	if e.Thorough() {
+		maxLen = 3
+	}
 	var scripts [][]action
 	var gen func(prefix []action, l int)
 	gen = func(prefix []action, l int) {
 		scripts = append(scripts, append([]action(nil), prefix...))
+		if len(prefix) <= 1 {
+			for k := 1; k < panicKinds; k++ {
+				scripts = append(scripts, append(append([]action(nil), prefix...), action{aPanic, k, 0}))
+			}
+		} else {
+			for _, k := range corePanics {
+				scripts = append(scripts, append(append([]action(nil), prefix...), action{aPanic, k, 0}))
+			}
+		}
 		if l == 0 {
 			return
-		}
-		for k := 1; k < panicKinds; k++ {
-			scripts = append(scripts, append(append([]action(nil), prefix...), action{aPanic, k, 0}))
 		}
 		for _, a := range nonPanic {
 			gen(append(prefix[:len(prefix):len(prefix)], a), l-1)
 		}
 	}
-	maxLen := 3
 	gen(nil, maxLen)
-	// the script ends up longer than maxLen by the trailing panic: keep those too
 	e.Stats["exhaustive_scripts"] = len(scripts)
 	e.Stats["exhaustive_max_len"] = maxLen
+	e.Stats["exhaustive_alphabet"] = len(nonPanic)
 
 	if e.Replay != "" {
 		if b, err := os.ReadFile(e.Replay); err == nil {
@@ -941,8 +1242,11 @@ func run(e *hk.Env) error {
 		n := len(sc)
 		if n > 0 && sc[n-1].tag == aPanic {
 			n--
+			if !e.Thorough() && !isCore(sc[n].a, corePanics) {
+				continue
+			}
 		}
-		if n > 1 && !e.Thorough() {
+		if n > 1 && !e.Thorough() || n > 2 {
 			continue
 		}
 		for hkind := 0; hkind < 3; hkind++ {
@@ -959,25 +1263,29 @@ func run(e *hk.Env) error {
 	// 4. random longer scripts, any code 200..599, repeated WriteHeader allowed
 	nRandom := 2000
 	if e.Thorough() {
-		nRandom = 150000
+		nRandom = 100000
 	}
 	for i := 0; i < nRandom; i++ {
 		l := r.Intn(9)
 		var sc []action
 		for j := 0; j < l; j++ {
-			switch x := r.Intn(10); {
+			switch x := r.Intn(14); {
 			case x < 2:
 				sc = append(sc, action{aNop, 0, 0})
 			case x < 5:
 				sc = append(sc, action{aHdr, 200 + r.Intn(400), 0})
 			case x < 9:
 				sc = append(sc, action{aBody, r.Intn(3), 1 + r.Intn(9)})
+			case x < 11:
+				sc = append(sc, action{aFlush, r.Intn(2), 0})
+			case x < 13:
+				sc = append(sc, action{aError404 + r.Intn(5), 0, 1 + r.Intn(9)})
 			default:
-				sc = append(sc, action{aPanic, 1 + r.Intn(panicKinds-1), 0})
+				sc = append(sc, action{aPanic, randomKind(r), 0})
 			}
 		}
 		if r.Chance(40) {
-			sc = append(sc, action{aPanic, 1 + r.Intn(panicKinds-1), 0})
+			sc = append(sc, action{aPanic, randomKind(r), 0})
 		}
 		thr := 4
 		if r.Chance(25) {
@@ -989,9 +1297,31 @@ func run(e *hk.Env) error {
 		flush(key, true)
 	}
 	e.Stats["random_scripts"] = nRandom
-	rn.probe()
 	rn.finish()
+	if len(rn.harnessErrs) > 0 {
+		return fmt.Errorf("%d requests failed on the client side twice without an escaped panic on the server, e.g. %s",
+			len(rn.harnessErrs), rn.harnessErrs[0])
+	}
 	return nil
+}
+
+func isCore(k int, core []int) bool {
+	for _, c := range core {
+		if c == k {
+			return true
+		}
+	}
+	return false
+}
+
+// randomKind: any panic value kind; the 1 MiB string rarely.
+func randomKind(r *hk.Rng) int {
+	for {
+		k := 1 + r.Intn(panicKinds-1)
+		if k != pvBigString || r.Chance(5) {
+			return k
+		}
+	}
 }
 
 func (rn *runner) finish() {
@@ -1025,7 +1355,7 @@ func parseCase(line string) (hkind, thr int, sc []action, ok bool) {
 	return hkind, thr, sc, true
 }
 
-// ---------------------------------------------------------------- probes (documented, not judged)
+// ---------------------------------------------------------------- values whose methods panic
 
 type textMarshalerPanics struct{ n int }
 
@@ -1042,48 +1372,3 @@ func (t formatterPanics) Format(f fmt.State, c rune) { panic("format-inner") }
 type logValuerPanics struct{ n int }
 
 func (t logValuerPanics) LogValue() slog.Value { panic("logvalue-inner") }
-
-// probe: panic values whose *marshalling* methods panic with a non-nil receiver. What happens is
-// recorded in stats ("contained" / "escaped") per handler; these values are not part of the sweep.
-func (rn *runner) probe() {
-	vals := []struct {
-		name string
-		v    any
-	}{
-		{"TextMarshaler_panics", textMarshalerPanics{1}},
-		{"json.Marshaler_panics", jsonMarshalerPanics{1}},
-		{"fmt.Formatter_panics", formatterPanics{1}},
-		{"slog.LogValuer_panics", logValuerPanics{1}},
-	}
-	names := []string{"nano", "text", "json"}
-	for hkind := 0; hkind < 3; hkind++ {
-		for _, pv := range vals {
-			out := &recWriter{}
-			opts := logger.NewOptions(slog.Level(4), false, false)
-			var h logger.Handler
-			switch hkind {
-			case 0:
-				h = logger.NewNanoHandler(out, opts)
-			case 1:
-				h = logger.NewTextHandler(out, opts)
-			default:
-				h = logger.NewJsonHandler(out, opts)
-			}
-			mux := httpd.NewMux()
-			mux.HandleRelay(logger.New(h).Relay)
-			v := pv.v
-			mux.HandleNoRoute(func(*httpd.Store) { panic(v) })
-			res := "contained"
-			rec := httptest.NewRecorder()
-			func() {
-				defer func() {
-					if r := recover(); r != nil {
-						res = "escaped"
-					}
-				}()
-				mux.ServeHTTP(rec, httptest.NewRequest("GET", "/probe", nil))
-			}()
-			rn.e.Stats["probe_"+pv.name+"_"+names[hkind]] = fmt.Sprintf("%s status=%d records=%d", res, rec.Code, len(out.take()))
-		}
-	}
-}
